@@ -47,7 +47,7 @@ func genVal(rng *rand.Rand) []byte {
 	return v
 }
 
-var viewPrefixes = [][]byte{{}, {0x00}, {0x00, 0x01}, {0x01}, {0xff}}
+var viewPrefixes = [][]byte{{}, {0x00}, {0x00, 0x01}, {0x01}, {0xff}, {0x00, 0x02}, {0x00, 0x01, 0x07}}
 var rootPrefixes = [][]byte{{}, {0x00}, {0xaa, 0x00}}
 
 func genLimit(rng *rand.Rand) int {
@@ -216,6 +216,11 @@ type runner struct {
 	refSnaps map[int]map[string][]byte
 	fails    []corr.Fail
 	opIdx    int
+	// prefix views derived from r.root and kept alive while r.root is: a view with a prefix of two or more
+	// bytes is derived from the (kept) view of its first byte, as modules derive sub-stores from their store,
+	// so that sibling sub-views of one parent coexist
+	views     map[string]*diffdb.Database
+	viewsRoot *diffdb.Database
 }
 
 func copyMap(m map[string][]byte) map[string][]byte {
@@ -280,7 +285,20 @@ func (r *runner) view(p []byte) *diffdb.Database {
 	if len(p) == 0 {
 		return r.root
 	}
-	return r.root.WithPrefix(p)
+	if r.views == nil || r.viewsRoot != r.root {
+		r.views, r.viewsRoot = map[string]*diffdb.Database{}, r.root
+	}
+	if v, ok := r.views[string(p)]; ok {
+		return v
+	}
+	var v *diffdb.Database
+	if len(p) >= 2 {
+		v = r.view(p[:1]).WithPrefix(p[1:])
+	} else {
+		v = r.root.WithPrefix(p)
+	}
+	r.views[string(p)] = v
+	return v
 }
 
 func join(parts ...[]byte) []byte {
@@ -389,6 +407,7 @@ func (r *runner) step(op string) string {
 		if err != nil {
 			return "err"
 		}
+		r.views = nil // a view keeps the staged store it was derived from; callers derive views after a restore
 		r.eff = snap
 		delete(r.refSnaps, id)
 		return "ok"
